@@ -100,6 +100,9 @@ func resumeRun(o *potsOut, s HScript, mode string, r *rand.Rand) int {
 	}
 	emit("reset", HOp{"new", -1, 0}, nil, nil, nil, nil, false, true)
 	for _, op := range s.Ops {
+		if strings.HasPrefix(op.Op, "?") {
+			continue // a side branch of the recorded run (probe): not part of the hand
+		}
 		if op.Op == "Rehydrate" {
 			if mode == "cuts" {
 				J = pf.NewPokerFace().NewGameFromState(cloneGS(J.GetState()))
@@ -275,7 +278,7 @@ func cmdHoldemViews(args []string) {
 			o.write(M{"kind": "views", "run": s.Run, "op": op.Op, "err": errStr(err), "state": projHoldem(gs), "deck": cards(gs.Meta.Deck), "views": views})
 		}
 		for _, op := range s.Ops {
-			if op.Op == "Rehydrate" {
+			if op.Op == "Rehydrate" || strings.HasPrefix(op.Op, "?") {
 				continue
 			}
 			var err error
